@@ -85,8 +85,11 @@ func (sn *serviceBuilder) accept(visitor ServiceFileVisitor) error {
 		source := sn.source.child("methods", strconv.Itoa(idx))
 
 		request := &schema_j5pb.Object{
-			Name:       fmt.Sprintf("%sRequest", method.Name),
-			Properties: method.Request.Properties,
+			Name: fmt.Sprintf("%sRequest", method.Name),
+		}
+		if method.Request != nil {
+			// a missing request is reported by the visitor, with its position
+			request.Properties = method.Request.Properties
 		}
 
 		requestNode, err := newObjectSchemaNode(source.child("request"), nil, request)
